@@ -311,8 +311,8 @@ class ImageViewerState(MatplotlibDataViewerState):
                 else:
                     self.y_att = self.y_att_world
 
-            if not forced:
-                self._on_xatt_world_change(forced=True)
+                if not forced:
+                    self._on_xatt_world_change(forced=True)
 
         elif self.reference_data is None:
 
